@@ -120,6 +120,22 @@ class Decls:
                 self.enums[name] = vs
         self.items[rel] = items
 
+    def fn_generics(self, fn):
+        """names of the type parameters declared on the fn itself (not the impl), from the source text"""
+        key = ('fngen', fn.name)
+        if key in self._impl_cache: return self._impl_cache[key]
+        out = []
+        meth = (fn.method or fn.name).split('::')[-1]
+        if fn.impl is not None:
+            txt = self.files[fn.impl[0]]; start = sum(len(l) + 1 for l in txt.split('\n')[:fn.impl[1] - 1])
+            m = re.search(r'fn\s+%s\s*<([^>(]*)>\s*\(' % re.escape(meth), txt[start:])
+            # must come before the next impl block
+            nxt = re.search(r'\n(impl\b|#\[cfg\(test\)\])', txt[start + 5:])
+            if m and (nxt is None or m.start() < nxt.start() + 5):
+                out = [g.strip().split(':')[0].strip() for g in _split_items(m.group(1)) if g.strip() and not g.strip().startswith("'") and not g.strip().startswith('const ')]
+        self._impl_cache[key] = out
+        return out
+
     def variant_index(self, enum, variant):
         for i, (v, _) in enumerate(self.enums[enum]):
             if v == variant: return i
